@@ -193,6 +193,8 @@ static void ev_end(bool with_proj)
 	}
 	vh_bput(&evb, ",");
 	put_sock(&evb);
+	if (injected_now)
+		vh_bput(&evb, ",\"af\":true"); /* an allocation of the library has been failed earlier in this execution */
 	vh_bput(&evb, "}");
 	emit(&evb);
 }
@@ -1128,6 +1130,7 @@ int main(int argc, char **argv)
 		struct vj *o = vj_parse(lineb);
 
 		if (vj_get(o, "new")) {
+			injected_now = false;
 			begin_execution(vj_get(o, "new"));
 		} else if (vj_get(o, "open")) {
 			if (openq_n < QMAX)
